@@ -2,10 +2,10 @@
 # merge_builder.sh <NAME>: merge /work/<NAME>/verif (branch work-<NAME>) into /verif.
 # evidence/MANIFEST: ours (rewritten by runs). KNOWN_FINDINGS.json: union by key (ours first).
 set -u
-N=$1
+N=$1; B=${2:-work-$1}
 cd /verif
-git pull --no-edit -q /work/$N/verif work-$N >/tmp/merge_$N.log 2>&1
-git -C /work/$N/verif show work-$N:KNOWN_FINDINGS.json > /tmp/theirs_kf.json 2>/dev/null
+git pull --no-edit -q /work/$N/verif $B >/tmp/merge_$N.log 2>&1
+git -C /work/$N/verif show $B:KNOWN_FINDINGS.json > /tmp/theirs_kf.json 2>/dev/null
 for f in $(git diff --name-only --diff-filter=U); do
   case "$f" in
     evidence/*|MANIFEST.json|replays/*|KNOWN_FINDINGS.json) git checkout --ours -- "$f"; git add "$f";;
